@@ -74,6 +74,17 @@ def gen_cases(tier, seed):
             case["history"] = ["used", "used_moved"][(k // 8) % 2]  # the Device object was solved before with other options
         cases.append(case)
     for j in range(2 if tier == "quick" else 8):
+        # no inelastic scattering (gamma = 0) and steps far beyond the scheme's stability limit: the update that cannot be evaluated
+        # (overflow) is refused like any other, the budget runs out, the run ends with the error - never with non-finite frames
+        dev = zoo.gen_device(rng, n_terminals=int([0, 2][j % 2]), n_holes=0, probes=0, size="small", gamma=0.0)
+        if j % 2 == 0:
+            o = dict(adaptive=False, dt_init=float([3.0, 8.0][(j // 2) % 2]), dt_max=10.0, solve_time=400.0, save_every=5, field_units="mT", current_units="uA", output="file")
+        else:
+            o = dict(adaptive=True, adaptive_window=2, adaptive_time_step_multiplier=0.9, max_solve_retries=int([1, 3][(j // 2) % 2]), dt_init=4.0, dt_max=10.0, solve_time=400.0,
+                     save_every=5, field_units="mT", current_units="uA", output="file")
+        drive = {"A": S.field_spec(rng, dev, o, "uniform", b=0.8), "currents": S.current_spec(rng, dev, o, "const" if j % 2 else "none", strength=0.3)}
+        cases.append({"device": dev, "options": o, "drive": drive, "monitors": ["adaptive"], "kind": "gamma0_blowup", "max_updates": 3000, "cost": 8})
+    for j in range(2 if tier == "quick" else 8):
         # terminals held at a non-zero value, proposals not clipped at dt_max: delta is the change of |psi|^2 of the state that
         # update() RETURNS (terminal sites re-imposed), not of an intermediate
         dev = zoo.gen_device(rng, n_terminals=2, n_holes=0, probes=int([0, 2][j % 2]), size="small", gamma=float([10.0, 1.0][j % 2]))
